@@ -385,6 +385,12 @@ def _contact_position(v, v1, v2, search_direction):
         ])
         coords_sum = np.sum(barycentric_coordinates)
 
+    if coords_sum == 0.0:
+        # Degenerate portal (coinciding vertices, flat Minkowski difference):
+        # no barycentric coordinates exist. Use the support points of v1 as in
+        # the touching and segment cases instead of dividing 0 by 0.
+        return 0.5 * (v1[1] + v2[1])
+
     barycentric_coordinates /= coords_sum
 
     v1 = barycentric_coordinates.dot(v1)
